@@ -30,6 +30,28 @@ def heads(t):
     return [t]
 
 
+def finalize_uses_external(ctx, rule):
+    """every construction of a transcript RNG on the prover's trace mixes in the caller's RNG (shared: R-C14-1, R-C13-5)"""
+    rep = ctx.rep
+    prover = wire.entry(ctx, 'prover', rule)
+    if prover is None:
+        return
+    evs = wire.entry_trace(ctx, prover)
+    rng_idx = [i for i in range(1, prover.argc + 1) if prover.local_ty(i) == '&mut R']
+    if not rng_idx:
+        rep.anchor_missing(rule, rule + '/params', 'prover has no generic `&mut R` RNG parameter')
+        return
+    rng_p = rng_idx[0]
+    fins = [e for e in evs if e.kind == 'finalize']
+    rep.floor(rule, 'finalize events in the prover trace', len(fins), 5)
+    for n, e in enumerate(fins):
+        a = strip(e.args[1]) if len(e.args) > 1 else None
+        ext = a is not None and a.tag == 'param' and a[1] == prover.key and a[2] == rng_p
+        rep.check(ext, rule, '%s/finalize/%02d' % (rule, n), 'finalize #%d mixes in the caller\'s external RNG' % n,
+                  'finalize #%d is given %s instead of the caller\'s RNG: draws from it do not vary with the caller\'s randomness' % (n, short(e.args[1], 100) if len(e.args) > 1 else None),
+                  ctx.where(e.body, e.bb))
+
+
 def run(ctx):
     rep = ctx.rep
     prover = wire.entry(ctx, 'prover', 'R-C14-1')
